@@ -93,6 +93,7 @@ func bareConfig(p *Plan, seed uint64) {
 	for i := range p.Insts {
 		p.Insts[i].NoMetrics = r.Bool(0.6)
 		p.Insts[i].NoLogger = r.Bool(0.6)
+		p.Insts[i].CorrID = r.Bool(0.5)
 	}
 }
 
@@ -441,6 +442,19 @@ func init() {
 		if r.Bool(0.4) {
 			p.TTL += 4 * p.H
 			p.Faults = append(p.Faults, Fault{Kind: FError, Inst: -1, Op: "update", From: 0, To: 0, Err: Pick(r, []string{"timeout", "noresponders"}), Prob: Pick(r, []float64{0.15, 0.3})})
+		}
+		// in some plans a refresh now and then is answered late - later than the next tick, still
+		// inside its time-out (1s for these intervals): the loop falls behind, works off the tick
+		// that was waiting and meets the following one early. Every tick still is one health report.
+		if r.Bool(0.35) {
+			p.TTL += 4 * p.H
+			hi := 2 * p.H
+			if hi > 900*ms-p.H/2 {
+				hi = 900*ms - p.H/2
+			}
+			if hi > p.H {
+				p.Faults = append(p.Faults, Fault{Kind: FSlow, Inst: -1, Op: "update", From: 0, To: 0, Arg: r.Dur(p.H, hi), Prob: Pick(r, []float64{0.1, 0.25})})
+			}
 		}
 		// long enough to consume the scripts over several terms (each demotion costs ~TTL)
 		p.Until = time.Duration(len(p.Insts[0].Health)+10)*p.H + 8*p.TTL
@@ -963,6 +977,7 @@ func init() {
 			c.V = Pick(r, []time.Duration{0, p.H, 2 * p.H})
 			c.Monitor = r.Bool(0.7)
 			c.Grace = Pick(r, []time.Duration{0, 2 * p.H, 4 * p.H})
+			c.CorrID = r.Bool(0.5)
 			if r.Bool(0.5) {
 				c.Prio = Pick(r, []int{1, 2, 3})
 				c.Takeover = true
